@@ -24,12 +24,18 @@ MENU = {
     "gsub": 'emit((string.gsub("hello world", "o", "{n}")))',
     "load": 'emit(load("return {n} + 1")())',
     "gcrunning": 'emit("isrunning", collectgarbage("isrunning"))',
+    "pkgconfig": 'package.config = "/\\n:\\n%\\n!\\n-\\n" emit(package.searchpath("no.such{n}", "./%.lua:./x/%.lua"))',
+    "pkgdefault": 'package.config = nil emit(package.searchpath("no.such{n}", "./?.lua;./y/?.lua"))',
+    "pkgpath": 'package.path = "./p{n}/?.lua" emit(pcall(require, "nosuchmodule{n}"))',
+    "require-miss": 'emit(pcall(require, "missing.mod{n}"))',
     # statements that span two segments: another runtime may run between their halves
     "seed|draw": ['math.randomseed({n})', 'emit(math.random(1000), math.random(1000), math.random(0) ~= nil)'],
     "global|read": ['shared_name = "rt{n}"', 'emit(shared_name)'],
     "strmeta|use": ['getmetatable("").__index.twice = function(s) return s .. s .. "{n}" end', 'emit(("ab"):twice())'],
     "lib|use": ['table.mine = {n}', 'emit(table.mine, rawget(table, "other"))'],
     "co|resume": ['CO = coroutine.wrap(function() local k = {n} while true do k = k + 1 coroutine.yield(k) end end) emit(CO())', 'emit(CO(), CO())'],
+    "pkgconfig|search": ['package.config = "/\\n:\\n%\\n!\\n-\\n"', 'emit(package.searchpath("a.b{n}", "./%.lua:./z/%.lua"))'],
+    "pkgnil|search": ['package.config = nil', 'emit(package.searchpath("a.b{n}", "./?.lua;./z/?.lua"))'],
     "quota|after": ['CTX = runtime.callcontext({kill = {memory = 20000}}, function() local t = {} while true do t[#t + 1] = {} end end)', 'emit(CTX.status, pcall(string.rep, "x", 100))'],
 }
 DETERMINISTIC_SEEDED = True
